@@ -1,6 +1,7 @@
 package fsx
 
 import (
+	"strings"
 	"crypto/sha256"
 	"encoding/hex"
 	"fmt"
@@ -18,6 +19,7 @@ type Node struct {
 	Target string `json:"target,omitempty"`
 	Mtime  uint32 `json:"mtime,omitempty"`
 	Atime  uint32 `json:"atime,omitempty"`
+	Nlink  uint32 `json:"nlink,omitempty"`
 }
 
 // Probe says which bytes of a file a dump reads: files up to Full bytes are
@@ -154,7 +156,7 @@ func Dump(srv nfstypes.NFS_PROGRAM_NFS_V3_handler, p *Probe) (map[string]Node, e
 		if !g.OK() {
 			return fmt.Errorf("%s: GETATTR status %d", path, g.Status)
 		}
-		n := Node{Kind: int(g.Attr.Type), Size: g.Attr.Size, FH: hex.EncodeToString(fh), Fileid: g.Attr.Fileid, Mtime: g.Attr.Mtime[0], Atime: g.Attr.Atime[0]}
+		n := Node{Kind: int(g.Attr.Type), Size: g.Attr.Size, FH: hex.EncodeToString(fh), Fileid: g.Attr.Fileid, Mtime: g.Attr.Mtime[0], Atime: g.Attr.Atime[0], Nlink: g.Attr.Nlink}
 		switch n.Kind {
 		case 1:
 			var rerr error
@@ -221,12 +223,12 @@ func DumpString(d map[string]Node) string {
 		ps = append(ps, p)
 	}
 	sort.Strings(ps)
-	s := ""
+	var s strings.Builder
 	for _, p := range ps {
 		n := d[p]
-		s += fmt.Sprintf("%s k%d sz%d id%d fh%s %s %s m%d a%d\n", p, n.Kind, n.Size, n.Fileid, n.FH, n.Data, n.Target, n.Mtime, n.Atime)
+		fmt.Fprintf(&s, "%s k%d sz%d id%d fh%s %s %s m%d a%d n%d\n", p, n.Kind, n.Size, n.Fileid, n.FH, n.Data, n.Target, n.Mtime, n.Atime, n.Nlink)
 	}
-	return s
+	return s.String()
 }
 
 // ExactDump is the dump used by C10: everything a client can observe, exactly -
